@@ -87,6 +87,28 @@ CLAIMS = {
                 "audited (data audit). It does NOT decide cell containment at cell edges/poles.",
         "technique": "value-flow graph + must/must-not dependence with flow kinds, unit inference, effect ordering; data audit",
     },
+    "C10": {
+        "text": "Decides sufficient structure for schedule independence: the closure of the per-event kernel (30+ "
+                "functions incl. the cloud closures and the atmosphere conversion) writes no instance state, global, "
+                "captured variable or parameter and draws no random number / clock / file; the C++ stepper has no "
+                "static state; the batch call is exactly from_sequence(zip(args)) -> map(kernel) -> compute() -> "
+                "zip(*...) with argument and result order matched by role and no other combinator; no handler can "
+                "swallow a task failure. dask's own order/exception semantics and IEEE determinism are trusted, not "
+                "decided.",
+        "technique": "effect / alias analysis over the inlined call graph of the kernel, pipeline-shape matching, "
+                     "token scan of the C++ translation unit",
+    },
+    "C11": {
+        "text": "Decides for 15 stage entry points: no argument array is modified on any path (aliasing through "
+                "views, augmented assignment, out=, mutating methods); a second call on the same objects does not "
+                "depend on anything the first call created (except the idempotent table clamp); per-event outputs keep "
+                "the input event population with no position-dependent index, no batch-wide reduction feeding a "
+                "column and no mixing of populations (two allow-listed constructs with stated reasons); samplers return "
+                "the iterator's allocated operand. Bit-for-bit equality relies on numpy's elementwise determinism "
+                "(trusted).",
+        "technique": "effect / alias analysis relative to each entry, two-call history analysis, length-class "
+                     "(equivariance) typing",
+    },
 }
 
 NOT_APPLICABLE = {
